@@ -21,7 +21,7 @@ ASSUMPTIONS = ["number spellings are drawn from the intersection of the SVG 1.1 
 CONFIGS = ['scipy']
 BUDGET = {'quick': 20000, 'thorough': 400000}
 EXHAUSTIVE_NOTE = "all programs M + <=3 (quick) / <=4 (thorough) commands over 20 letters"
-REQUIRED = ['s_reflects', 't_reflects', 'draw_after_z', 'implicit_repeat', 'zero_radius_arc', 'compact_flags',
+REQUIRED = ['reparsed_after_editing_an_earlier_result', 's_reflects', 't_reflects', 'draw_after_z', 'implicit_repeat', 'zero_radius_arc', 'compact_flags',
             'second_moveto', 'h_v_relative', 'z_adds_line', 'z_no_line']
 TIME_LIMIT = {'quick': 200, 'thorough': 3000}
 # coverage-guided second engine: (shards, libFuzzer runs per shard)
@@ -321,3 +321,20 @@ def check(case, ctx):
     if not (got[0] == got[1]):
         ctx.fail('spellings_differ', '%r and %r parse to different paths' % (text1, text2))
     # closedness bookkeeping: a path containing Z reports closed-ness consistently with its geometry
+    # parsing is a function of the string: what a caller did to an earlier result (edited in place) does not show in a later parse
+    if got[0] and len(got[0]) > 0:
+        from svgpathtools import Arc
+        first = got[0][0]
+        if not isinstance(first, Arc):
+            first.start = first.start + complex(3.0, -2.0)
+        if not isinstance(got[0][-1], Arc):
+            got[0].end = got[0].end + complex(-1.0, 5.0)
+        ctx.count('reparsed_after_editing_an_earlier_result')
+        try:
+            p = parse_path(text1)
+        except Exception as e:
+            ctx.fail('reparse/raises/%s' % type(e).__name__, 'second parse_path(%r) raised %s: %s' % (text1, type(e).__name__, str(e)[:200]), d=text1)
+        segs = list(p)
+        ok = len(segs) == len(expected) and all(type(a) is type(b) and a == b for a, b in zip(segs, expected))
+        if not ok:
+            ctx.fail('reparse/differs', 'parse_path(%r) after an earlier result of the same string was edited in place gives %r, reference %r' % (text1, segs, expected), d=text1)
